@@ -133,6 +133,18 @@ Theorem C12_skipped_iff_zero :
 Proof. exact @skipped_iff_zero. Qed.
 Print Assumptions C12_skipped_iff_zero.
 
+(* the list printed in the end-of-run NOTE (Model.note_lines renders it as
+   Python prints it; tied to stdout byte for byte): the keys of the
+   zero-importance cells in the order of the cell block, each once *)
+Theorem C12_note_order :
+  forall (T : Type) (Sc : Scalar T) (P : prims T) (imp_cards : list (string * list string))
+         (cards : list card) (lats : list (Z * list (Z * Z)))
+         (cells : list (Z * cell (T:=T))) (skipped : list Z),
+    parse_cells Sc P imp_cards cards lats = Ok (cells, skipped) ->
+    skipped = map fst (filter (fun kc => is_zero Sc (snd kc)) cells) /\ NoDup skipped.
+Proof. exact @skipped_in_order. Qed.
+Print Assumptions C12_note_order.
+
 (* a cell in no universe and without FILL is handed to the conversion iff it is
    not in the skip list *)
 Theorem C12_converted_iff_nonzero :
